@@ -19,9 +19,13 @@ Parts (all deciding steps are complete enumerations of the stated spaces):
      distinct transpositions for methods with <= T2_MAX hashed objects, thorough only).
   S  the corpus is re-run in child processes with PYTHONHASHSEED = 0..7 (thorough 0..31), compared with the
      in-process run (runner pins PYTHONHASHSEED=0).
-  H  history: for a ~60 method corpus every ordered pair (A then B; B alone as reference) in a process forked
-     from a pristine server process (DEX parsed, Analysis built, nothing decompiled yet); thorough adds every
-     ordered triple of distinct methods of a 15-method sub-corpus.
+  H  history (B must get the text it gets when decompiled alone in a fresh process): ~60 method corpus.
+     chains: for every A a fresh process and freshly parsed DEX + Analysis, then A B1 A B2 A B3 ...: every ordered
+     pair (A,B) and (B,A) occurs adjacently (histories share the objects, as DvMachine/DecompilerDAD users do);
+     exact: fresh DEX + Analysis objects for every single ordered pair (quick: all pairs of the small-file
+     methods, whose files parse in milliseconds; thorough: all pairs of the corpus and all ordered triples of
+     distinct methods of a 15-method sub-corpus).  A fingerprint of all androguard.decompiler module/class
+     state is taken after every history (canonical state; shows whether in-process histories start pristine).
 Oracle: byte-identical DvMethod.get_source() / DvClass.get_source() (statement of C22).  A method that raises
 is compared by exception type + message.  replay() runs the witness in two fresh child processes and demands
 the same difference from both.
@@ -543,52 +547,102 @@ def hist_corpus(repo):
     return {"corpus": corpus, "sub": sub}
 
 
+def _canon(x, depth=0, seen=None):
+    """address-free canonical form of process-global state (bounded depth)"""
+    import types
+    if isinstance(x, (int, float, str, bytes, bool, type(None))):
+        return repr(x)
+    if isinstance(x, (types.FunctionType, types.BuiltinFunctionType, type, types.ModuleType, types.MethodType)):
+        return "<%s>" % getattr(x, "__qualname__", getattr(x, "__name__", "?"))
+    if depth > 3:
+        return "<%s>" % type(x).__name__
+    if isinstance(x, dict):
+        return "{" + ",".join(sorted(_canon(k, depth + 1) + ":" + _canon(v, depth + 1) for k, v in list(x.items()))) + "}"
+    if isinstance(x, (list, tuple)):
+        return "[" + ",".join(_canon(v, depth + 1) for v in x) + "]"
+    if isinstance(x, (set, frozenset)):
+        return "s{" + ",".join(sorted(_canon(v, depth + 1) for v in x)) + "}"
+    d = getattr(x, "__dict__", None)
+    if isinstance(d, dict) and depth <= 2:
+        return "<%s %s>" % (type(x).__name__, _canon(d, depth + 1))
+    return "<%s>" % type(x).__name__
+
+
+def global_fingerprint():
+    """hash of all module globals and class attributes of androguard.decompiler.* (the state a decompilation could
+    leave behind in the process apart from the DEX/Analysis objects it was given)"""
+    h = hashlib.blake2b(digest_size=8)
+    for mn in sorted(sys.modules):
+        if not mn.startswith("androguard.decompiler"):
+            continue
+        mod = sys.modules[mn]
+        for k in sorted(vars(mod)):
+            v = vars(mod)[k]
+            if k.startswith("__") or isinstance(v, type(sys)):
+                continue
+            if isinstance(v, type):
+                if v.__module__ != mn:
+                    continue
+                for ak in sorted(vars(v)):
+                    if ak in ("__new__", "__hash__", "__init__", "__dict__", "__weakref__", "__doc__"):
+                        continue
+                    h.update(("%s.%s.%s=%s\n" % (mn, k, ak, _canon(vars(v)[ak], 1))).encode("utf-8", "replace"))
+            else:
+                h.update(("%s.%s=%s\n" % (mn, k, _canon(v))).encode("utf-8", "replace"))
+    return h.hexdigest()
+
+
+def _fresh(repo, names):
+    """freshly parsed DEX + freshly built Analysis for the named (history corpus) files; nothing cached"""
+    from androguard.core import dex
+    from androguard.core.analysis.analysis import Analysis
+    out = {}
+    for name in names:
+        with open(os.path.join(repo, "tests", "data", "APK", name), "rb") as f:
+            d = dex.DEX(f.read())
+        out[name] = (d, Analysis(d))
+    return out
+
+
 def hist_server(repo, corpus, seqs):
-    """Pristine process: parse + analyse, decompile nothing; then one fork per history.  -> [[text hash per step]]"""
-    import gc
+    """One process, nothing decompiled before.  Every history `seq` (indices into corpus) runs on freshly parsed
+    DEX + fresh Analysis objects.  -> [{"h": [text hash per step], "g": global-state fingerprint after}]"""
     install()
-    gc.disable()
-    for name, ci, mi in corpus:
-        _hist_load(repo, name)
-    gc.freeze()                   # forked children must not touch (copy) the parsed DEX pages
+    g0 = global_fingerprint()
     out = []
     for seq in seqs:
-        r, wfd = os.pipe()
-        pid = os.fork()
-        if pid == 0:
-            code = 1
-            try:
-                os.close(r)
-                res = []
-                for i in seq:
-                    name, ci, mi = corpus[i]
-                    d, dx, _ = _HCACHE[name]
-                    res.append(th(run_method(dx, d.get_classes()[ci].get_methods()[mi])))
-                os.write(wfd, json.dumps(res).encode())
-                code = 0
-            finally:
-                os._exit(code)
-        os.close(wfd)
-        buf = b""
-        while True:
-            chunk = os.read(r, 65536)
-            if not chunk:
-                break
-            buf += chunk
-        os.close(r)
-        _, st = os.waitpid(pid, 0)
-        if st != 0 or not buf:
-            raise RuntimeError("history child failed for %r" % (seq,))
-        out.append(json.loads(buf))
-    return out
+        objs = _fresh(repo, sorted({corpus[i][0] for i in seq}))
+        res = []
+        for i in seq:
+            name, ci, mi = corpus[i][:3]
+            d, dx = objs[name]
+            res.append(th(run_method(dx, d.get_classes()[ci].get_methods()[mi])))
+        out.append({"h": res, "g": global_fingerprint()})
+        del objs
+    return {"g0": g0, "r": out}
 
 
 _HC = {}
 
 
 def _hcorpus(repo):
+    """history corpus + the reference text hash of every corpus method decompiled ALONE (fresh process, fresh
+    objects, nothing before it); computed once in the main process, inherited by the forked shard workers."""
     if repo not in _HC:
-        _HC[repo] = _run_child(repo, {"op": "histcorpus"})
+        hc = _run_child(repo, {"op": "histcorpus"})
+        c3 = [x[:3] for x in hc["corpus"]]
+        n = len(c3)
+        import concurrent.futures
+        chunks = [list(range(a, n, 8)) for a in range(8)]
+        with concurrent.futures.ThreadPoolExecutor(8) as ex:
+            rs = list(ex.map(lambda ch: _run_child(repo, {"op": "hist", "corpus": c3, "seqs": [[i] for i in ch]}), chunks))
+        alone = [None] * n
+        for ch, r in zip(chunks, rs):
+            for i, x in zip(ch, r["r"]):
+                alone[i] = x["h"][0]
+        hc["alone"] = alone
+        hc["g0"] = rs[0]["g0"]
+        _HC[repo] = hc
     return _HC[repo]
 
 
@@ -609,8 +663,11 @@ def space(ctx):
         "transposition_bound": {"deviation_1_max_hashed_objects": T_MAX_THOROUGH if ctx.thorough else T_MAX_QUICK,
                                 "deviation_2_max_hashed_objects": T2_MAX if ctx.thorough else 0},
         "hashseeds": [0] + seeds(ctx),
-        "history_corpus": n, "history_pairs": n * n,
-        "history_triples": (s * (s - 1) * (s - 2)) if ctx.thorough else 0,
+        "history_corpus": n,
+        "history_pairs_adjacent_in_chains": "all %d ordered pairs (A,B): chain A B1 A B2 .. on objects fresh per A" % (n * n),
+        "history_pairs_exact_fresh_objects_per_pair": (n * n) if ctx.thorough else
+        "all ordered pairs of the %d small-file methods" % len([x for x in hc["corpus"] if x[4] == "small"]),
+        "history_triples_exact": (s * (s - 1) * (s - 2)) if ctx.thorough else 0,
         "hash_domain": "injective maps creation-index -> [0, 2^24)",
     }
 
@@ -629,13 +686,19 @@ def shards(ctx):
         for lo, hi in slices(sizes[name], S_SLICE):
             for g in range(0, len(sd), 4):
                 out.append(("S", name, lo, hi, sd[g:g + 4]))
-    n = len(_hcorpus(ctx.repo)["corpus"])
+    hc = _hcorpus(ctx.repo)
+    n = len(hc["corpus"])
     for a in range(0, n, 2):
-        out.append(("H", a, min(a + 2, n)))
+        out.append(("H", a, min(a + 2, n)))                  # chains: A B1 A B2 ... on objects fresh per A
+    small = [i for i, x in enumerate(hc["corpus"]) if x[4] == "small"]
     if ctx.thorough:
-        s = len(_hcorpus(ctx.repo)["sub"])
-        for a in range(s):
+        for a in range(n):
+            out.append(("HX", [a], list(range(n))))          # exact pairs, objects fresh per pair
+        for a in hc["sub"]:
             out.append(("H3", a))
+    else:
+        for g in range(0, len(small), 6):
+            out.append(("HX", small[g:g + 6], small))
     # interleave kinds so that long and short shards mix, deterministically
     return out
 
@@ -670,6 +733,8 @@ def run_shard(ctx, shard):
         _run_S(ctx, acc, cands, *shard[1:])
     elif kind == "H":
         _run_H(ctx, acc, cands, shard[1], shard[2])
+    elif kind == "HX":
+        _run_HX(ctx, acc, cands, shard[1], shard[2])
     elif kind == "H3":
         _run_H3(ctx, acc, cands, shard[1])
     _flush(acc, cands)
@@ -812,45 +877,71 @@ def _run_S(ctx, acc, cands, name, lo, hi, sds):
         acc.sample({"part": "S", "dex": name, "classes": [lo, hi], "seeds": [0] + list(sds), "methods": nm})
 
 
-def _hist_run(ctx, acc, cands, corpus, seqs):
+def _hist_run(ctx, acc, cands, seqs, kind):
+    hc = _hcorpus(ctx.repo)
+    corpus, alone = hc["corpus"], hc["alone"]
     c3 = [x[:3] for x in corpus]
-    alone = _run_child(ctx.repo, {"op": "hist", "corpus": c3, "seqs": [[s[-1]] for s in seqs]})
-    res = _run_child(ctx.repo, {"op": "hist", "corpus": c3, "seqs": seqs})
-    for seq, r, al in zip(seqs, res, alone):
-        acc.n += 1
-        acc.nt_disjoint += 1
-        acc.transitions += len(seq) + 1
-        acc.traces += 2
-        acc.count("history_pairs" if len(seq) == 2 else "history_triples")
-        b = corpus[seq[-1]]
-        acc.state((b[0], b[3], r[-1]))
-        acc.outcomes.add(hash(r[-1]))
-        if r[-1] != al[0]:
-            w = {"kind": "hist", "seq": [corpus[i][:3] for i in seq]}
-            ta = eval_witness(ctx.repo, dict(w, seq=w["seq"][-1:]))["a"]
-            # texts for the message / classification come from the fresh-process judge
-            j = judge_fresh(ctx.repo, w)
-            msg = j[1] if j else "history %s changed the text of %s in the forked run (hash %s vs %s alone)" % (
-                [corpus[i][3] for i in seq[:-1]], b[3], r[-1], al[0])
+    out = _run_child(ctx.repo, {"op": "hist", "corpus": c3, "seqs": seqs})
+    if out["g0"] != hc["g0"]:
+        acc.harness_error("pristine global-state fingerprint differs between two fresh processes")
+    acc.traces += len(seqs)
+    for seq, r in zip(seqs, out["r"]):
+        acc.transitions += len(seq)
+        acc.state(("global-state", r["g"]))
+        if r["g"] != out["g0"]:
+            acc.count("histories_that_changed_decompiler_global_state")
+        reported = set()
+        if r["h"][0] != alone[seq[0]]:
+            acc.harness_error("text of %s decompiled alone differs between two fresh processes" % corpus[seq[0]][3])
+        for pos in range(1, len(seq)):
+            b = corpus[seq[pos]]
+            acc.n += 1
+            acc.nt_disjoint += 1
+            acc.state((b[0], b[3], r["h"][pos]))
+            acc.outcomes.add(hash(r["h"][pos]))
+            if r["h"][pos] == alone[seq[pos]] or seq[pos] in reported:
+                continue
+            reported.add(seq[pos])
+            # minimise: the adjacent pair alone, else the whole prefix; judged in fresh processes
+            w = j = None
+            for cand in ([seq[pos - 1], seq[pos]], seq[:pos + 1]):
+                w = {"kind": "hist", "seq": [c3[i] for i in cand]}
+                j = judge_fresh(ctx.repo, w)
+                if j:
+                    break
             key = "history:%s:%s" % (b[4], b[0])
-            cands.setdefault(key, []).append((len(ta), b[3], w, msg))
+            if j:
+                cands.setdefault(key, []).append((len(w["seq"]), b[3], w, j[1]))
+            else:
+                acc.harness_error("history difference for %s after %r did not reproduce in fresh processes"
+                                  % (b[3], seq[:pos]))
+    acc.count(kind, sum(len(s) - 1 for s in seqs) if kind == "history_pairs_adjacent_in_chain" else len(seqs))
 
 
 def _run_H(ctx, acc, cands, a0, a1):
     hc = _hcorpus(ctx.repo)
-    corpus = hc["corpus"]
-    n = len(corpus)
-    seqs = [[a, b] for a in range(a0, a1) for b in range(n)]
-    _hist_run(ctx, acc, cands, corpus, seqs)
+    n = len(hc["corpus"])
+    seqs = []
+    for a in range(a0, a1):
+        chain = []
+        for b in range(n):
+            chain += [a, b]                   # ... A B : every ordered pair (A, B) and (B, A') adjacent
+        seqs.append(chain + [a])
+    _hist_run(ctx, acc, cands, seqs, "history_pairs_adjacent_in_chain")
     if a0 == 0:
-        acc.sample({"part": "H", "history": [corpus[0][3], corpus[n - 1][3]], "corpus": n})
+        acc.sample({"part": "H", "chain": [hc["corpus"][i][3] for i in seqs[0][:4]] + ["..."], "length": len(seqs[0]),
+                    "corpus": n})
+
+
+def _run_HX(ctx, acc, cands, As, Bs):
+    seqs = [[a, b] for a in As for b in Bs]
+    _hist_run(ctx, acc, cands, seqs, "history_pairs_exact")
 
 
 def _run_H3(ctx, acc, cands, a):
-    hc = _hcorpus(ctx.repo)
-    corpus, sub = hc["corpus"], hc["sub"]
-    seqs = [[sub[a], b, c] for b in sub for c in sub if len({sub[a], b, c}) == 3]
-    _hist_run(ctx, acc, cands, corpus, seqs)
+    sub = _hcorpus(ctx.repo)["sub"]
+    seqs = [[a, b, c] for b in sub for c in sub if len({a, b, c}) == 3]
+    _hist_run(ctx, acc, cands, seqs, "history_triples_exact")
 
 
 # ------------------------------------------------------------------ vacuity self-test
@@ -880,7 +971,7 @@ def finalize(ctx, acc):
     e = acc.extra
     if e.get("methods_with_hashed_objects", 0) < 100:
         acc.harness_error("degenerate: only %d methods hash >= 2 owned objects" % e.get("methods_with_hashed_objects", 0))
-    if e.get("transpositions", 0) < 1000 or e.get("hashseed_runs", 0) < 7 or e.get("history_pairs", 0) < 2500:
+    if e.get("transpositions", 0) < 1000 or e.get("hashseed_runs", 0) < 7 or e.get("history_pairs_adjacent_in_chain", 0) < 2500 or e.get("history_pairs_exact", 0) < 400:
         acc.harness_error("degenerate space: %r" % (e,))
     if len(acc.states) < e.get("methods", 0) // 2:
         acc.harness_error("fewer observed states than methods/2")
